@@ -127,10 +127,31 @@ def funnel(ctx):
     # directory / zip member / plain file all delegate per file
     fi = repo.func('bridgepoint.ooaofooa:ModelLoader.filename_input')
     calls = [src(n.func) for n in ast.walk(fi) if isinstance(n, ast.Call) and src(n.func).startswith('xtuml.ModelLoader.')]
-    r.check(sorted(calls) == ['xtuml.ModelLoader.file_input', 'xtuml.ModelLoader.filename_input', 'xtuml.ModelLoader.filename_input'],
+    r.check(sorted(set(calls)) == ['xtuml.ModelLoader.file_input', 'xtuml.ModelLoader.filename_input'] and len(calls) >= 3,
             'directory members, zip members and plain files are each fed to the base loader', fi,
             construct='bridgepoint.ooaofooa:ModelLoader.filename_input', key='three-routes',
             msg='bridgepoint filename_input delegates through %s' % calls)
+    walks = [n for n in ast.walk(fi) if isinstance(n, ast.For) and isinstance(n.iter, ast.Call) and dotted(n.iter.func) == 'os.walk']
+    listdirs = [n for n in ast.walk(fi) if isinstance(n, ast.For) and 'os.listdir' in src(n.iter)]
+    if walks:
+        w = walks[0]
+        ok = src(w.iter) == 'os.walk(path_or_filename)' and isinstance(w.target, ast.Tuple) and len(w.target.elts) == 3
+        dirv = src(w.target.elts[0]) if ok else '?'
+        ok = ok and any(isinstance(c, ast.Call) and dotted(c.func) == 'os.path.join' and src(c.args[0]) == dirv for c in ast.walk(w))
+        r.check(ok, 'a directory input is walked recursively and every member is opened by its joined path', w,
+                construct='bridgepoint.ooaofooa:ModelLoader.filename_input', key='walk',
+                msg='the directory route does not os.walk(path_or_filename) and open os.path.join(<walked dir>, name)')
+    elif listdirs:
+        for lp_ in listdirs:
+            nv = lp_.target.id if isinstance(lp_.target, ast.Name) else None
+            for c in ast.walk(lp_):
+                if isinstance(c, ast.Call) and dotted(c.func) in ('os.path.isdir', 'os.path.isfile', 'os.path.exists', 'open', 'zipfile.is_zipfile') \
+                        and c.args and isinstance(c.args[0], ast.Name) and c.args[0].id == nv:
+                    r.violation('the directory route tests `%s` on the bare entry name returned by os.listdir, not on its path joined with the '
+                                'directory: sub directories are never recognised, so files below the top level are silently dropped'
+                                % src(c), c, construct='bridgepoint.ooaofooa:ModelLoader.filename_input', key='bare-listdir-name')
+    else:
+        raise AnalysisError('%s: directory traversal of filename_input not recognised' % loc(fi))
     for pat, what in (("name.endswith('.xtuml')", 'directory members'), ("zipinfo.filename.endswith('.xtuml')", 'zip members')):
         r.check(any(src(n.test) == pat for n in ast.walk(fi) if isinstance(n, ast.If)), '%s are selected by the .xtuml suffix only' % what, fi,
                 construct='bridgepoint.ooaofooa:ModelLoader.filename_input', key='suffix ' + what,
@@ -297,6 +318,12 @@ def new_rule(ctx, am):
     lv = lp.target.id
     skip = [n for n in lp.body if isinstance(n, ast.If) and len(n.body) == 1 and isinstance(n.body[0], ast.Continue)]
     ok = any(src(s.test) == 'set(%s.key_map.values()) - set(referential_attributes.keys())' % lv for s in skip)
+    allowed_skips = {'set(%s.key_map.values()) - set(referential_attributes.keys())' % lv, 'not kwargs'}
+    for s_ in skip:
+        r.check(src(s_.test) in allowed_skips, 'batch relate skip `%s` is one of the two structural ones' % src(s_.test), s_, construct=Q,
+                key='extra-skip ' + src(s_.test),
+                msg='MetaClass.new skips the batch relate under `%s`: links are determined by the keys alone (a supplied referential value such as 0 '
+                    'or False is a value, not an absent key), so this loses links that loading the same rows creates' % src(s_.test))
     r.check(ok, 'a link is used only when all of its referential attributes were supplied', lp, construct=Q, key='covered',
             msg='MetaClass.new no longer skips links whose key_map values are not all among the supplied referential attributes')
     ok = any(isinstance(n, ast.For) and src(n.iter) == '%s.key_map.items()' % lv and
